@@ -16,7 +16,7 @@ from ..core import MachineryError
 from ..sim.gateway import GatewaySim
 from ..vloop import virtual_world
 
-REACT = ("ok", "lost", "late", "dup", "stale", "err", "wrongchan", "wrongseq")
+REACT = ("ok", "lost", "late", "dup", "stale", "err", "errunk", "wrongchan", "wrongseq")
 # "disc": no acknowledgement, the server sends a DisconnectRequest 0.3 s later while the request is pending
 
 
@@ -65,7 +65,12 @@ def run_plan(plan, auto_reconnect, nsend, concurrent=False, connect_plan=(), see
 
         async def main():
             await sim.tun.connect()
-            if concurrent:
+            if isinstance(concurrent, tuple):          # ("stagger", step): sender i starts at i * step, whatever the others are doing
+                async def later(i):
+                    await asyncio.sleep(i * concurrent[1])
+                    return await one(i)
+                await asyncio.gather(*(later(i) for i in range(nsend)))
+            elif concurrent:
                 await asyncio.gather(*(one(i) for i in range(nsend)))
             else:
                 for i in range(nsend):
@@ -94,7 +99,13 @@ def run(ck):
             plans.append((list(p), ar, 3, False))
     for _ in range(120 if ck.tier == "quick" else 1500):
         n = rnd.randrange(4, 9)
-        plans.append((rnd.choices(REACT, k=n), True, 4, rnd.random() < 0.7))
+        plans.append((rnd.choices(REACT + ("slow",), k=n), True, 4, rnd.random() < 0.7))
+    # senders arriving while another one is being served, also across a reconnect started by the sender itself (two lost
+    # acknowledgements) and while the first request on the new connection waits for a slow acknowledgement
+    for step, head in itertools.product((0.1, 0.23, 0.5, 0.9), (["lost", "lost"], ["slow"], ["lost", "slow", "lost", "lost"], ["err"])):
+        plans.append((head + ["slow"] * 8 + ["ok"] * 8, True, 16 if step < 0.4 else 9, ("stagger", step)))
+    for _ in range(60 if ck.tier == "quick" else 600):
+        plans.append((rnd.choices(("ok", "slow", "slow", "lost", "lost", "err", "dup"), k=12), True, rnd.randrange(4, 12), ("stagger", rnd.choice([0.05, 0.1, 0.3, 0.7, 1.1]))))
     # the tunnel is lost while a request awaits its acknowledgement; reconnecting takes 1..3 attempts
     for k, cp, tail in itertools.product(range(0, 4), (["ok"], ["ok", "lost"], ["ok", "lost", "lost"], ["ok", "err"]),
                                          (["ok"], ["lost", "ok"], ["disc"])):
